@@ -10,6 +10,7 @@ import (
 	"fmt"
 	"math/rand"
 	"os"
+	"runtime/debug"
 	"time"
 )
 
@@ -92,6 +93,7 @@ func cmdSeq(args []string) {
 }
 
 func main() {
+	debug.SetMaxStack(256 << 20) // runaway recursion through a corrupted tree fails fast
 	if len(os.Args) < 2 {
 		fatalf("usage: gkvdrive <seq|...> [flags]")
 	}
@@ -102,6 +104,8 @@ func main() {
 		cmdEnum(os.Args[2:])
 	case "reclaim":
 		cmdReclaim(os.Args[2:])
+	case "crash":
+		cmdCrash(os.Args[2:])
 	default:
 		fmt.Fprintf(os.Stderr, "unknown command %q\n", os.Args[1])
 		os.Exit(2)
